@@ -1,18 +1,18 @@
 (** Concrete instances for the termination / totality theorems of the parser
-    model (property C06): the default context is well formed; the hypotheses of
-    the theorems are satisfiable on non-trivial inputs; the bound "at most 10
-    argument slots" for the model's fixed fuel is sharp. *)
+    model (property C06): the hypotheses of the theorems are satisfiable on
+    non-trivial inputs; the model's fuel for the default context; a context with
+    11 argument slots, on which a constant budget of 8 units per character
+    would not be enough, terminates with the model's context-dependent fuel. *)
 From Coq Require Import NArith List Bool Arith Lia.
 From PLV Require Import Base.PyStr Tok.PState Tok.Tokenizer Parse.Nodes Parse.Parser Parse.ParseWire
      Proofs.ParserInv Proofs.ParserMono Proofs.ParserTermDefs Proofs.ParserTerm Gen.GenWalkerCtx.
 Import ListNotations.
 
-(** the default context of [LatexWalker] (regenerated from /repo on every run) *)
-Example default_ctx_wf : ctx_wf default_ctx = true.
-Proof. vm_compute. reflexivity. Qed.
-
+(** the default context of [LatexWalker] (regenerated from /repo on every run):
+    at most 10 argument slots per specification, so that 8 units of fuel per
+    character would already be enough for it *)
 Example default_ctx_max_args : max_args default_ctx <= 10.
-Proof. apply Nat.leb_le. exact default_ctx_wf. Qed.
+Proof. apply Nat.leb_le. vm_compute. reflexivity. Qed.
 
 (** ["a\textbf{b}$x$ }c"]: a stray closing brace after valid content *)
 Definition ex_stray : str := [97;92;116;101;120;116;98;102;123;98;125;36;120;36;32;125;99]%N.
@@ -36,14 +36,14 @@ Example ex_open_tolerant : is_nodes (parse_top ex_open true default_ctx (walker_
 Proof. vm_compute. reflexivity. Qed.
 
 (** fuel monotonicity is not vacuous: 60 units are enough for [ex_stray], and
-    the result with 60 is the result with the model's 176 *)
+    the result with 60 is the result with the model's own fuel *)
 Example run_mono_nonvacuous :
   let t := TGeneral (walker_state default_ctx) top_opts 0 in
   is_oof (run ex_stray true default_ctx 60 t) = false /\
-  run ex_stray true default_ctx (parse_fuel ex_stray) t = run ex_stray true default_ctx 60 t.
+  run ex_stray true default_ctx (parse_fuel ex_stray default_ctx) t = run ex_stray true default_ctx 60 t.
 Proof.
   cbn zeta. split; [vm_compute; reflexivity|].
-  apply (run_mono ex_stray true default_ctx 60 (parse_fuel ex_stray) _ _ eq_refl).
+  apply (run_mono ex_stray true default_ctx 60 (parse_fuel ex_stray default_ctx) _ _ eq_refl).
   - intros E. apply (f_equal is_oof) in E. vm_compute in E. discriminate.
   - vm_compute. repeat constructor.
 Qed.
@@ -57,20 +57,22 @@ Proof. vm_compute. reflexivity. Qed.
 Example run_fuel_enough_nonvacuous :
   4 <= 8 /\ max_args default_ctx + 6 <= 2 * 8 /\
   task_ok ex_open default_ctx (TGeneral (walker_state default_ctx) top_opts 0) /\
-  need ex_open 8 (TGeneral (walker_state default_ctx) top_opts 0) <= parse_fuel ex_open.
+  need ex_open 8 (TGeneral (walker_state default_ctx) top_opts 0) <= parse_fuel ex_open default_ctx.
 Proof.
   split; [lia|]. split; [pose proof default_ctx_max_args; lia|]. split; [apply top_task_ok|].
   vm_compute. repeat constructor.
 Qed.
 
-(** ** The bound on the argument slots is sharp for the model's fixed fuel
+(** ** A context with more than 10 argument slots
 
     A context with one specials character ["~"] taking [n] optional stars and
     one mandatory argument, and the input ["~{~{~{..."]: every two characters
     cost [n + 7] units of recursion depth.  With [n + 1 = 11] slots the 80
-    character input exhausts [parse_fuel = 8 * 80 + 40]; with 10 slots it does
-    not.  (The real parser handles both: this is a limit of the model's fuel
-    constant, not of the code.) *)
+    character input exhausts the constant budget [8 * 80 + 40] that the model
+    used before its fuel was made to depend on the context (with 10 slots it
+    does not); the model's fuel [parse_fuel s cx = length s * (8 + max_args cx)
+    + 40 + max_args cx] is enough, as it is for every context
+    ([parse_top_terminates]). *)
 Definition star_slot : argspec :=
   {| a_spec := [42%N]; a_kind := AKChars [42%N] false false; a_delta := ADNone |}.
 Definition mand_slot : argspec := {| a_spec := [123%N]; a_kind := AKExpr false; a_delta := ADNone |}.
@@ -82,9 +84,18 @@ Definition slots_ctx (n : nat) : context :=
 Fixpoint tilde_braces (n : nat) : str :=
   match n with O => [] | S k => 126%N :: 123%N :: tilde_braces k end.
 
-Example fuel_bound_sharp :
+Example many_slots_terminates :
   max_args (slots_ctx 10) = 11 /\
-  parse_top (tilde_braces 40) true (slots_ctx 10) (walker_state (slots_ctx 10)) = OutOfFuel /\
+  parse_fuel (tilde_braces 40) (slots_ctx 10) = 19 * 80 + 51 /\
+  is_nodes (parse_top (tilde_braces 40) true (slots_ctx 10) (walker_state (slots_ctx 10))) = true /\
+  is_perr (parse_top (tilde_braces 40) false (slots_ctx 10) (walker_state (slots_ctx 10))) = true.
+Proof. vm_compute. repeat split. Qed.
+
+(** remark: the former constant budget would not do for this context *)
+Example old_fixed_fuel_not_enough :
+  run (tilde_braces 40) true (slots_ctx 10) (8 * 80 + 40)
+      (TGeneral (walker_state (slots_ctx 10)) top_opts 0) = OutOfFuel /\
   max_args (slots_ctx 9) = 10 /\
-  is_nodes (parse_top (tilde_braces 40) true (slots_ctx 9) (walker_state (slots_ctx 9))) = true.
+  is_oof (run (tilde_braces 40) true (slots_ctx 9) (8 * 80 + 40)
+              (TGeneral (walker_state (slots_ctx 9)) top_opts 0)) = false.
 Proof. vm_compute. repeat split. Qed.
